@@ -131,6 +131,7 @@ func Load() (*Loaded, error) {
 	if nerr > 0 {
 		return nil, fmt.Errorf("%d load/type errors - the tree does not type-check, nothing can be decided", nerr)
 	}
+	rebindRenames(L.Fset, pkgs)
 	for _, p := range pkgs {
 		if !strings.HasPrefix(p.PkgPath, modPath) {
 			continue
@@ -177,11 +178,11 @@ func shortName(f *types.Func) string {
 			n = nt.Obj().Name()
 		}
 		if ptr {
-			return "(*" + n + ")." + f.Name()
+			return "(*" + n + ")." + canonName(f)
 		}
-		return "(" + n + ")." + f.Name()
+		return "(" + n + ")." + canonName(f)
 	}
-	return f.Name()
+	return canonName(f)
 }
 
 // QName gives "parser.(*parser).alias" for keys.
